@@ -243,6 +243,12 @@ spec fn cwn(c: char) -> nat { match cw(c) { Some(w) => w as nat, None => 0 } }
 spec fn flat_str<T>(s: Seq<char>, tag: T) -> Seq<CItem<T>> { Seq::new(s.len(), |i: int| CItem::Ch(s[i], tag)) }
 spec fn flat_elt<T>(e: TaggedLineElement<T>) -> Seq<CItem<T>> { match e { TaggedLineElement::Str(ts) => flat_str(ts.s@, ts.tag), TaggedLineElement::FragmentStart(n) => seq![CItem::Frag(n@)] } }
 spec fn flat<T>(v: Seq<TaggedLineElement<T>>) -> Seq<CItem<T>> decreases v.len() { if v.len() == 0 { Seq::empty() } else { flat(v.drop_last()) + flat_elt(v.last()) } }
+// collapse rule of normal flow, from the property (C04/C13): a run of collapsible whitespace leaves exactly one pending
+// space, and only when the line already has text (no line begins with a space)
+spec fn collapse_ws(line_len: usize, wslen: usize) -> usize { if line_len > 0 && wslen == 0 { 1 } else { wslen } }
+proof fn lemma_collapse_idempotent(line_len: usize, wslen: usize) //@w @C13 #collapse_runs_equal_one_space
+    ensures collapse_ws(line_len, collapse_ws(line_len, wslen)) == collapse_ws(line_len, wslen), wslen <= 1 ==> collapse_ws(line_len, wslen) <= 1,
+{}
 spec fn padn(width: usize, len: usize) -> nat { if width > len { (width - len) as nat } else { 0 } }
 spec fn spaces(n: nat) -> Seq<char> { Seq::new(n, |i: int| ' ') }
 spec fn str_some(s: Seq<char>) -> bool { forall|k: int| 0 <= k < s.len() ==> cw(#[trigger] s[k]).is_some() }
@@ -1005,7 +1011,7 @@ impl<T: Clone + Eq + Debug + Default> WrappedBlock<T> {
             old(self).allow_overflow ==> r.is_ok(), //@w @C11 #at_overflow_ok
             final(self).text@.len() >= old(self).text@.len(), final(self).text@.take(old(self).text@.len() as int) =~= old(self).text@, //@w @C03 #at_keeps_emitted_lines
     {
-        hide(sw); hide(cwid); hide(off); hide(flat); hide(flat_str); hide(flat_elt); hide(spaces); hide(tag_ok); //@w
+        hide(sw); hide(cwid); hide(off); hide(flat); hide(flat_str); hide(flat_elt); hide(spaces); //@w
         html_trace!("WrappedBlock::add_text({}), {:?}", text, main_tag);
         // We walk character by character.
         // 1. First, build up whitespace columns in self.wslen
@@ -1034,6 +1040,7 @@ impl<T: Clone + Eq + Debug + Default> WrappedBlock<T> {
             if c.is_whitespace() && self.wordlen > 0 {
                 self.flush_word(ws_mode)?;
             }
+            let ghost mid = *self; //@w
 
             if c.is_whitespace() {
                 // We're just building up whitespace.
@@ -1048,16 +1055,23 @@ impl<T: Clone + Eq + Debug + Default> WrappedBlock<T> {
                             self.pre_wrapped = false;
                             // Hard new line, so back to main tag.
                             tag = main_tag;
+                            // newline rule (C12): exactly one line is emitted (blank lines kept), pending space dropped //@w
+                            assert(self.text@.len() == mid.text@.len() + 1 && self.text@.drop_last() == mid.text@); //@w @C12 #newline_emits_one_line
+                            assert(self.wslen == 0 && self.line.v@.len() == 0 && !self.pre_wrapped && tag == main_tag); //@w @C12 #newline_resets
                         }
                         '\t' => {
                             let tab_stop = 8;
                             let mut pos = self.line.len + self.wslen;
                             let mut at_least_one_space = false;
+                            let ghost mut wrapped = false; //@w
+                            let ghost pos0 = pos; //@w
                             while pos % tab_stop != 0 || !at_least_one_space
                                 invariant                                                            //@w
                                     self.inv(), tag_ok::<T>(), self.frame(old(self)), self.width >= 1, //@w
                                     self.text@.len() >= old(self).text@.len(), self.text@.take(old(self).text@.len() as int) =~= old(self).text@, //@w
                                     self.line.len <= pos, pos <= 0x4000_0000_0000_0000, tab_stop == 8, //@w
+                                    !wrapped ==> pos == self.line.len + self.wslen && pos >= pos0 && pos <= pos0 - pos0 % 8 + 8 && (pos > pos0) == at_least_one_space && self.text == mid.text, //@w
+                                    self.wslen == mid.wslen, self.word == mid.word, //@w
                                     self.wslen + self.wordlen + self.width + self.word.len + 4 * (text@.len() - it.index@) <= 0x4000_0000_0000_0000, //@w
                                 decreases                                                            //@w
                                     (if at_least_one_space { 0int } else { 1int }),                  //@w
@@ -1067,6 +1081,7 @@ impl<T: Clone + Eq + Debug + Default> WrappedBlock<T> {
                                 if pos >= self.width {
                                     self.flush_line();
                                     pos = 0;
+                                    proof { wrapped = true; } //@w
                                 } else {
                                     proof { axiom_cw_space(); }                                      //@w
                                     self.line.push_char(' ', tag);
@@ -1074,6 +1089,10 @@ impl<T: Clone + Eq + Debug + Default> WrappedBlock<T> {
                                     at_least_one_space = true;
                                 }
                             }
+                            // tab rule (C12): unless the line had to be broken, the column (text + pending spaces) advances //@w
+                            // to the next multiple of 8, by at least one and at most eight columns //@w
+                            assert(!wrapped ==> (self.line.len + self.wslen) % 8 == 0 && self.line.len + self.wslen > pos0 && self.line.len + self.wslen - pos0 <= 8); //@w @C12 #tab_next_stop
+                            assert(!wrapped ==> self.text == mid.text); //@w @C12 #tab_no_line_emitted
                         }
                         _ => {
                             if let Some(cwidth) = UnicodeWidthChar::width(c) {
@@ -1106,6 +1125,11 @@ impl<T: Clone + Eq + Debug + Default> WrappedBlock<T> {
                         self.spacetag = Some(tag.clone());
                         self.wslen = 1;
                     }
+                    // collapse rule (C04, C13): any collapsible whitespace character only records ONE pending space, //@w
+                    // and only when the line already has text and no space is pending; nothing else changes //@w
+                    assert(self.wslen == collapse_ws(mid.line.len, mid.wslen)); //@w @C04 @C13 #collapse_rule
+                    assert(self.text == mid.text && self.line == mid.line && self.word == mid.word && self.wordlen == mid.wordlen && self.pre_wrapped == mid.pre_wrapped); //@w @C04 @C13 #collapse_frame
+                    assert(self.wslen > mid.wslen ==> self.spacetag == Some(*tag)); //@w @C09 @C13 #collapse_space_tag
                 }
             } else {
                 // Non-whitespace character: add to the current word.
